@@ -953,7 +953,19 @@ func (h *handler) asyncSyncAdChain(ctx context.Context) {
 	}
 	syncer, updatePeerstore, err := h.makeSyncer(peerInfo, true)
 	if err != nil {
+		// The sync failed before it began (for example, the publisher could
+		// not be reached to find out how to talk to it). Handle this like
+		// any other failed sync: allow another announce for the same CID and
+		// tell listeners.
+		if h.subscriber.receiver != nil {
+			h.subscriber.receiver.UncacheCid(nextCid)
+		}
 		log.Errorw("Cannot make syncer for announce", "err", err, "peer", h.peerID)
+		h.subscriber.inEvents <- SyncFinished{
+			Cid:    nextCid,
+			PeerID: h.peerID,
+			Err:    err,
+		}
 		return
 	}
 
